@@ -758,3 +758,143 @@ func c14Gateway(f []string, install func(*c14World)) string {
 	}
 	return "bad-op"
 }
+
+// ---------------------------------------------------------------------------------------------
+// Domain C14s: stress + trace inclusion.  `gen` RUNS the real lock under genuine concurrency
+// (several goroutines locking two keys with cancellable contexts, short TTLs, stale and foreign
+// unlocks); the hooks `lock.enq` / `lock.rm` fire under the queue's own mutex, so the order in
+// which they are logged is the order in which the queue changed.  `run` answers `ok` to every log
+// line; the Lean driver (mode=trace) answers `ok` iff the model can take the same step with the
+// same observable values (granted on enqueue, found on remove, acquire only when granted).
+//
+// log:  enq K N G | acq K N | cancel K N | rm K N F | hang      (K: queue 0,1,…; N: caller number
+//       in order of enqueue over all keys; G/F: 0|1)
+
+func init() { Register("C14s", Domain{Gen: genC14s, Run: runC14s}) }
+
+func genC14s(rng *rand.Rand, tier string, w *bufio.Writer) {
+	rounds, gor, iters := 10, 6, 40
+	if tier == "thorough" {
+		rounds, gor, iters = 60, 10, 120
+	}
+	for r := 0; r < rounds; r++ {
+		var mu sync.Mutex
+		var log []string
+		queues := map[any]int{}
+		ids := map[string]int{}
+		lk := lock.New()
+		verifhook.SetHandler(func(name string, args ...any) {
+			if !strings.HasPrefix(name, "lock.") || len(args) < 2 {
+				return
+			}
+			if name != "lock.enq" && name != "lock.rm" && name != "lock.acq" && name != "lock.cancel" {
+				return
+			}
+			id, _ := args[1].(string)
+			mu.Lock()
+			defer mu.Unlock()
+			k, ok := queues[args[0]]
+			if !ok {
+				k = len(queues)
+				queues[args[0]] = k
+			}
+			key := fmt.Sprintf("%d|%s", k, id)
+			n, known := ids[key]
+			if name == "lock.enq" {
+				n = len(ids) + 1
+				ids[key] = n
+				known = true
+			}
+			if !known {
+				n = 0 // an id this queue never issued
+			}
+			flag := 0
+			if len(args) > 2 {
+				if b, _ := args[2].(bool); b {
+					flag = 1
+				}
+			}
+			switch name {
+			case "lock.enq":
+				log = append(log, fmt.Sprintf("enq %d %d %d", k, n, flag))
+			case "lock.rm":
+				log = append(log, fmt.Sprintf("rm %d %d %d", k, n, flag))
+			case "lock.acq":
+				log = append(log, fmt.Sprintf("acq %d %d", k, n))
+			case "lock.cancel":
+				log = append(log, fmt.Sprintf("cancel %d %d", k, n))
+			}
+		})
+		var wg sync.WaitGroup
+		for g := 0; g < gor; g++ {
+			wg.Add(1)
+			seed := rng.Int63()
+			go func(seed int64) {
+				defer wg.Done()
+				lr := rand.New(rand.NewSource(seed))
+				keys := []string{"a", "b"}
+				for i := 0; i < iters; i++ {
+					key := keys[lr.Intn(2)]
+					ctx, cancel := context.WithCancel(context.Background())
+					if lr.Intn(3) == 0 {
+						cancel()
+						ctx, cancel = context.WithTimeout(context.Background(), time.Duration(200+lr.Intn(2500))*time.Microsecond)
+					}
+					ttl := 5 * time.Second
+					short := lr.Intn(3) == 0
+					if short {
+						ttl = time.Duration(500+lr.Intn(2000)) * time.Microsecond
+					}
+					id, err := lk.Lock(ctx, key, ttl)
+					cancel()
+					if err != nil {
+						continue
+					}
+					if lr.Intn(2) == 0 {
+						time.Sleep(time.Duration(lr.Intn(800)) * time.Microsecond)
+					}
+					if !short || lr.Intn(2) == 0 {
+						_ = lk.Unlock(key, id)
+					} else {
+						time.Sleep(ttl + 200*time.Microsecond) // let the TTL release it
+					}
+					switch lr.Intn(6) {
+					case 0:
+						_ = lk.Unlock(key, id) // stale
+					case 1:
+						_ = lk.Unlock(keys[1-lr.Intn(2)], id) // maybe the other key: foreign
+					}
+				}
+			}(seed)
+		}
+		done := make(chan struct{})
+		go func() { wg.Wait(); close(done) }()
+		hung := false
+		select {
+		case <-done:
+		case <-time.After(20 * time.Second):
+			hung = true
+		}
+		time.Sleep(5 * time.Millisecond) // outstanding short-TTL watchdogs
+		verifhook.SetHandler(nil)
+		fmt.Fprintf(w, "case %d\n", r)
+		mu.Lock()
+		for _, l := range log {
+			fmt.Fprintln(w, l)
+		}
+		if hung {
+			fmt.Fprintln(w, "hang")
+		}
+		mu.Unlock()
+	}
+}
+
+func runC14s(in *bufio.Scanner, w *bufio.Writer) {
+	for in.Scan() {
+		if strings.HasPrefix(in.Text(), "case ") {
+			fmt.Fprintln(w, in.Text())
+		} else {
+			fmt.Fprintln(w, "ok")
+		}
+	}
+}
